@@ -111,3 +111,47 @@ func TestMinimal(t *testing.T) {
 		})
 	}
 }
+
+// TestMinimalImported: the same defect through an imported memory. Only memory.size is wrong there
+// (the bounds checks of imported memories already read the length with a 64-bit load).
+//
+//	(module $a (memory (export "memory") 65536))
+//	(module $b (import "a" "memory" (memory 1))
+//	  (func (export "load") (result i32) (i32.load (i32.const 96)))
+//	  (func (export "size") (result i32) (memory.size)))
+func TestMinimalImported(t *testing.T) {
+	ma := &e.Module{Mems: [][]byte{e.Limits(65536, -1, false)}}
+	ma.Exports = append(ma.Exports, e.Export{Name: "memory", Kind: e.KMem, Idx: 0})
+	mb := &e.Module{}
+	mb.Imports = append(mb.Imports, e.Import{Mod: "a", Name: "memory", Kind: e.KMem, Desc: e.Limits(1, -1, false)})
+	mb.ExportFunc("load", mb.AddFunc(nil, []byte{e.I32}, nil, e.NewB().I32Const(96).Mem(0x28, 2, 0).Bytes()))
+	mb.ExportFunc("size", mb.AddFunc(nil, []byte{e.I32}, nil, e.NewB().MemorySize().Bytes()))
+	run := func(cfg wazero.RuntimeConfig) (out []string) {
+		ctx := context.Background()
+		rt := wazero.NewRuntimeWithConfig(ctx, cfg)
+		defer rt.Close(ctx)
+		if _, err := rt.InstantiateWithConfig(ctx, ma.Encode(), wazero.NewModuleConfig().WithName("a")); err != nil {
+			t.Fatal(err)
+		}
+		mod, err := rt.InstantiateWithConfig(ctx, mb.Encode(), wazero.NewModuleConfig().WithName("b"))
+		if err != nil {
+			t.Fatal(err)
+		}
+		for _, fn := range []string{"load", "size"} {
+			res, err := mod.ExportedFunction(fn).Call(ctx)
+			if err != nil {
+				out = append(out, fmt.Sprintf("%s -> ERR %s", fn, strings.SplitN(err.Error(), "\n", 2)[0]))
+			} else {
+				out = append(out, fmt.Sprintf("%s -> %v", fn, res))
+			}
+		}
+		return
+	}
+	i, c := run(wazero.NewRuntimeConfigInterpreter()), run(wazero.NewRuntimeConfigCompiler())
+	for k := range i {
+		t.Logf("interpreter: %-28s compiler: %s", i[k], c[k])
+	}
+	if strings.Join(i, "|") != strings.Join(c, "|") {
+		t.Errorf("engines disagree")
+	}
+}
